@@ -83,6 +83,9 @@ pub struct Opts {
     /// and ends one word under those options, and reaches these options through update_engine (while idle) before the
     /// first event: a live, used, re-configured context.
     pub via_update: bool,
+    /// the `Config` object has a past: every boolean setter is first called with the inverted value, then with the value under
+    /// test (a front-end keeps one Config object and flips options on it)
+    pub churn: bool,
 }
 
 impl Opts {
@@ -104,6 +107,7 @@ impl Opts {
             smart: true,
             reversed_setters: false,
             via_update: false,
+            churn: false,
         }
     }
     pub fn fixed(layout: &str, db: &str, xdg: &str) -> Opts {
@@ -124,6 +128,7 @@ impl Opts {
             smart: true,
             reversed_setters: false,
             via_update: false,
+            churn: false,
         }
     }
     pub fn is_phonetic(&self) -> bool {
@@ -160,7 +165,7 @@ impl Opts {
             "english": self.english, "psugg": self.psugg, "fsugg": self.fsugg,
             "vowel": self.vowel, "chandra": self.chandra, "kar": self.kar, "reph": self.reph,
             "numpad": self.numpad, "karorder": self.karorder, "ansi": self.ansi, "smart": self.smart,
-            "reversed_setters": self.reversed_setters, "via_update": self.via_update
+            "reversed_setters": self.reversed_setters, "via_update": self.via_update, "churn": self.churn
         })
     }
     pub fn from_json(v: &Value) -> Opts {
@@ -183,6 +188,7 @@ impl Opts {
             smart: b("smart"),
             reversed_setters: b("reversed_setters"),
             via_update: b("via_update"),
+            churn: b("churn"),
         }
     }
     /// Short label of the boolean options for evidence/feature strings.
@@ -214,6 +220,9 @@ impl Opts {
         if self.via_update {
             s.push_str("+(re-configured)");
         }
+        if self.churn {
+            s.push_str("+(used Config object)");
+        }
         s
     }
 
@@ -240,6 +249,19 @@ impl Opts {
                     "database dir rejected: {}",
                     self.db
                 );
+            }
+            if self.churn {
+                riti_config_set_suggestion_include_english(ptr, !self.english);
+                riti_config_set_phonetic_suggestion(ptr, !self.psugg);
+                riti_config_set_fixed_suggestion(ptr, !self.fsugg);
+                riti_config_set_fixed_auto_vowel(ptr, !self.vowel);
+                riti_config_set_fixed_auto_chandra(ptr, !self.chandra);
+                riti_config_set_fixed_traditional_kar(ptr, !self.kar);
+                riti_config_set_fixed_old_reph(ptr, !self.reph);
+                riti_config_set_fixed_numpad(ptr, !self.numpad);
+                riti_config_set_fixed_old_kar_order(ptr, !self.karorder);
+                riti_config_set_ansi_encoding(ptr, !self.ansi);
+                riti_config_set_smart_quote(ptr, !self.smart);
             }
             let setters: [&dyn Fn(); 11] = [
                 &|| riti_config_set_suggestion_include_english(ptr, self.english),
